@@ -102,7 +102,7 @@ def run(mod, tier, seed, replay=None):
 # ------------------------------------------------------------------ helper for the usual shape
 
 def standard(ctx, cases, oracle, nontrivial, rule, dist, samples_from=None, model_cases=None,
-             exhaustive_subspaces=(), normalize=None, env_extra=None):
+             exhaustive_subspaces=(), normalize=None, env_extra=None, on_disagree=None):
     """Run cases on both sides, compare line by line, run the direct oracle on
     every implementation result."""
     rep = ctx["rep"]
@@ -131,6 +131,12 @@ def standard(ctx, cases, oracle, nontrivial, rule, dist, samples_from=None, mode
                 mo = normalize(c, mo)
             if mo != io:
                 dis.append({"case": c[:2000], "implementation": io[:2000], "model": mo[:2000]})
+                if on_disagree:
+                    # a disagreement that is by itself a failing input for the property
+                    # (e.g. the implementation accepts what the independent model rejects)
+                    v = on_disagree(c, io, mo)
+                    if v:
+                        rep.violation(v[0], v[1], {"case": c, "implementation": io[:4000], "model": mo[:4000]})
     rnd = random.Random(ctx["seed"])
     samp = []
     for i in sorted(rnd.sample(range(len(cases)), min(6, len(cases)))):
